@@ -443,6 +443,9 @@ class Unit:
         out.append('  EXC__LAST };')
         out.append('#ifndef VERIF_NO_EXC_DEFS')
         out.append('int verif_exc = 0;')
+        out.append('#ifdef VERIF_CBMC')
+        out.append('size_t verif_g; size_t verif_sum; verif_call_t verif_calls[24]; size_t verif_ncalls; const void* verif_mark[4];')
+        out.append('#endif')
         out.append('static int verif_exc_parent_of(int e) { switch (e) {')
         depth = 1
         for q in allexc:
@@ -503,6 +506,9 @@ class Unit:
         for key, ext in self.externals.items():
             if 'proto' in ext:
                 out.append(ext['proto'] + ';')
+        if self.protos:
+            out.append('/* identifiers of the contract stubs in the ghost call log */')
+            out.append('enum { FN__none' + ''.join(', FN_%s' % self.fn_cname(c_) for c_ in self.protos.keys()) + ' };')
         for name, text in self.helpers.items():
             if text:
                 out.append(text.split('\n')[0] + ';')
